@@ -109,6 +109,15 @@ def gen_one(rng, i, tier):
     pos, neg = _values(rng, npos, 1.0), _values(rng, nneg, -1.0)
     if rng.random() >= 0.03:  # negative zeros only in a few cases (see corpus/C11/negzero_smoothing.json)
         pos, neg = [x + 0.0 for x in pos], [x + 0.0 for x in neg]
+    sdt = None
+    if empty is None and rng.random() < 0.12:
+        # the source holds its scores in an integer dtype, also an unsigned one (quantised detector outputs): values -> dense
+        # ranks (ties kept), spread over the dtype's range
+        sdt = rng.choice(["u1", "u1", "u2", "i8"])
+        vals = sorted(set(pos + neg))
+        step_ = max(1, (250 if sdt == "u1" else 60000) // max(1, len(vals)))
+        rank = {v: float(k * min(step_, 7) + (0 if k else 0)) for k, v in enumerate(vals)}
+        pos, neg = [rank[x] for x in pos], [rank[x] for x in neg]
     ep, en = _easy(rng, max(npos, 1)), _easy(rng, max(nneg, 1))
     sc, ec = rng.choice(gen.CFGS)
     runs = []
@@ -157,7 +166,7 @@ def gen_one(rng, i, tier):
         runs.append({"method": m, "strat": rng.choice([None, "by_label"]), "smooth": False,
                      "ratio": rng.choice([0.5, 0.2, 0.8]) if m == "proportion" else None,
                      "script": {"real": rng.randrange(2**31)}})
-    return {"pos": pos, "neg": neg, "ep": ep, "en": en, "sc": sc, "ec": ec, "runs": runs}
+    return {"pos": pos, "neg": neg, "ep": ep, "en": en, "sc": sc, "ec": ec, "runs": runs, "sdt": sdt}
 
 
 def nontrivial(inp):
@@ -212,7 +221,8 @@ def build(inp) -> Case:
 
     inp = dict(inp)
     pre, lines, judges = [], [], []
-    pa, na = np.array(inp["pos"], dtype=float), np.array(inp["neg"], dtype=float)
+    sdt_ = {"u1": np.uint8, "u2": np.uint16, "i8": np.int64}.get(inp.get("sdt"), float)
+    pa, na = np.array(inp["pos"], dtype=sdt_), np.array(inp["neg"], dtype=sdt_)
     pa0, na0 = pa.copy(), na.copy()
     s = Scores(pa, na, nb_easy_pos=inp["ep"], nb_easy_neg=inp["en"], score_class=inp["sc"],
                equal_class=inp["ec"])
